@@ -1155,6 +1155,7 @@ impl Sim {
                     "barrier_greyed_child" => "probe_barrier_greyed_child",
                     "cross_heap_capture" => "probe_cross_heap_capture",
                     "cross_heap_read" => "probe_cross_heap_read",
+                    "heap_accounting_drift" => "probe_heap_accounting_drift",
                     _ => "probe_other",
                 };
                 self.count(key);
